@@ -5,6 +5,7 @@ MaxThreads = 1
 Cap = 1
 AllowRetire = FALSE
 FixRetire = TRUE
+FixReset = TRUE
 INVARIANTS AtMostOnce JoinAfterDone QueueOK
 PROPERTY Live
 CONSTANT defaultInitValue = defaultInitValue
